@@ -279,6 +279,8 @@ def factory(shape, body="plain"):
         ret = f"return ('r', MID, F[0].next({pos}))"
     elif body == "cnv":
         ret = "return ('r', MID, call_next(D['__v']))"
+    elif body == "cnv2":
+        ret = "return ('r', MID, call_next(*D['__v']))" if False else "return ('r', MID, call_next(D['__v'][0], D['__v'][1]))"
     elif body == "rec":
         ret = f"return ('r', MID, [recurse(e) for e in {first}])"
     elif body == "ret":
